@@ -96,6 +96,8 @@ def judge_run(case, maps, resp, compare_events=False):
        rejected      reference accepts, implementation reports a parse/static error
        mismatch      printed values / ending / events differ from the reference"""
     st = resp.get("st")
+    if st == "CRASH" and "memory allocation of" in str((resp.get("crash") or {}).get("msg")):
+        return "not-oracle", "arena exhausted (resource limit of the harness configuration)"
     if st in ("PANIC", "CRASH"):
         return "crash", resp.get("panic") or (resp.get("crash") or {}).get("msg") or str(resp.get("crash"))
     oracle = case["st"] in ORACLE
